@@ -25,10 +25,46 @@ var errVerifJSON = errors.New("stub json: not a schema token")
 
 func verifStub_json_Marshal(in any, opts ...json.Options) ([]byte, error) {
 	if s, ok := in.(*Schema); ok {
+		// equal schemas get the same token (marshalling is a function)
+		for i := range verifSchemaReg {
+			if verifSchemaEq(&verifSchemaReg[i], s) {
+				return []byte{'#', byte(i)}, nil
+			}
+		}
 		verifSchemaReg = append(verifSchemaReg, *s)
 		return []byte{'#', byte(len(verifSchemaReg) - 1)}, nil
 	}
 	return nil, errVerifJSON
+}
+
+func verifSchemaEq(a, b *Schema) bool {
+	if a.Type != b.Type || len(a.Union) != len(b.Union) || (a.Object == nil) != (b.Object == nil) {
+		return false
+	}
+	for i := range a.Union {
+		if !verifSchemaEq(&a.Union[i], &b.Union[i]) {
+			return false
+		}
+	}
+	if a.Object == nil {
+		return true
+	}
+	x, y := a.Object, b.Object
+	if x.Type != y.Type || x.LogicalType != y.LogicalType || x.Name != y.Name || x.Namespace != y.Namespace || x.Size != y.Size ||
+		len(x.Fields) != len(y.Fields) || len(x.Symbols) != len(y.Symbols) {
+		return false
+	}
+	for i := range x.Fields {
+		if x.Fields[i].Name != y.Fields[i].Name || !verifSchemaEq(&x.Fields[i].Type, &y.Fields[i].Type) {
+			return false
+		}
+	}
+	for i := range x.Symbols {
+		if x.Symbols[i] != y.Symbols[i] {
+			return false
+		}
+	}
+	return verifSchemaEq(&x.Items, &y.Items) && verifSchemaEq(&x.Values, &y.Values)
 }
 
 func verifStub_json_Unmarshal(in []byte, out any, opts ...json.Options) error {
@@ -183,4 +219,32 @@ func (f *verifInflater) Read(p []byte) (int, error) {
 		return 0, f.err
 	}
 	return 0, io.EOF
+}
+
+// ---- io.CopyN: contract model ---------------------------------------------------
+//
+// Copies up to n bytes in small chunks and returns io.EOF when the source ends
+// early, as documented. (The real implementation slices a 512-byte scratch
+// buffer by the symbolic n, which the engine could only follow by forking
+// hundreds of ways.)
+func verifStub_io_CopyN(dst io.Writer, src io.Reader, n int64) (int64, error) {
+	var written int64
+	var tmp [8]byte
+	for written < n {
+		k := int64(8)
+		if n-written < 8 {
+			k = n - written
+		}
+		m, err := src.Read(tmp[:k])
+		if m > 0 {
+			if _, werr := dst.Write(tmp[:m]); werr != nil {
+				return written, werr
+			}
+			written += int64(m)
+		}
+		if err != nil {
+			return written, err
+		}
+	}
+	return written, nil
 }
